@@ -1569,7 +1569,9 @@ fn maybe_base_specifier(
     reader: &mut ContentReader<'_>,
 ) -> Result<Option<BaseSpecifier>, TokenError> {
     let mut lookahead = reader.clone();
-    if let Some(value) = parse_base_specifier(&mut lookahead)? {
+    // An error inside the look-ahead consumes nothing from the reader and must not be reported here:
+    // the text is not a base specifier and the offending character is reported when it is consumed.
+    if let Ok(Some(value)) = parse_base_specifier(&mut lookahead) {
         reader.set_to(&lookahead);
         Ok(Some(value))
     } else {
